@@ -151,6 +151,7 @@ func (mq *MessageQueue) Startup() {
 // Shutdown stops the processing of messages for a message queue.
 func (mq *MessageQueue) Shutdown() {
 	mq.doneOnce.Do(func() {
+		verifhook.Event("mq.shutdown", mq)
 		close(mq.done)
 	})
 }
